@@ -11,9 +11,16 @@
     "gf_data"  {n, order, results, target} → gate fidelity on arbitrary callback data
     "mle_born" {n, prog, order}            → n_vec from the Born tables, p_vec of the reference
                                              Choi matrix (repaired / pinned), consistency flags
+    "tp_proj"  {n, A}                      → `_tp_proj(A)` (d = 2ⁿ, A of size d²), its partial trace,
+                                             the partial trace of A
+    "cp_proj"  {n, vals, vecs}             → A = vecs·diag(vals)·vecs†, `_cp_proj` of it computed
+                                             from this eigen-decomposition (rational `vals`), the
+                                             part removed, whether `vecs` is exactly unitary
+    "pgdb_step" {n, choi, proj, alpha}     → `choi + alpha·(proj − choi)` and its partial trace
 -/
 import LW.Driver.C15
 import LW.Model.ProcTomo
+import LW.Model.MLEProj
 
 open Lean
 
@@ -122,6 +129,31 @@ def handlePtomo (req : Json) : R Json := do
             ("consistent", .bool (prop (pVec i n ref))),
             ("consistent_pinned", if (req.getObjValD "pinned") == Json.bool true
                                   then .bool (prop (pVecPinned i n ref)) else Json.null)]
+  | "tp_proj" =>
+      let A ← asMatQ2 (← fld req "A")
+      let dd := 2 ^ n
+      if A.n ≠ dd * dd then .error "A has the wrong size"
+      let out := tpProj dd A
+      return Json.mkObj [("out", matQ2J out), ("ptrace_out", matQ2J (partialTrace dd out)),
+        ("ptrace_in", matQ2J (partialTrace dd A))]
+  | "cp_proj" =>
+      let vals ← asListOf asQ2 (← fld req "vals")
+      let V ← asMatQ2 (← fld req "vecs")
+      if V.n ≠ vals.length then .error "vals / vecs sizes differ"
+      if !(vals.all fun v => v.b == 0 && v.a.im == 0) then .error "eigenvalues must be rational"
+      let clip (x : Q2) : Q2 := if x.a.re > 0 then x else 0
+      let clipNeg (x : Q2) : Q2 := if x.a.re < 0 then x else 0
+      return Json.mkObj [("A", matQ2J (cpProjFrom id vals V)), ("P", matQ2J (cpProjFrom clip vals V)),
+        ("N", matQ2J (cpProjFrom clipNeg vals V)),
+        ("unitary", .bool ((V.dagger.mul V).beq (M.one V.n)))]
+  | "pgdb_step" =>
+      let C ← asMatQ2 (← fld req "choi")
+      let P ← asMatQ2 (← fld req "proj")
+      let al ← asQ2 (← fld req "alpha")
+      let dd := 2 ^ n
+      if C.n ≠ dd * dd ∨ P.n ≠ dd * dd then .error "wrong size"
+      let out := pgdbStep (fun _ => P) (fun X => X) 0 al C
+      return Json.mkObj [("out", matQ2J out), ("ptrace_out", matQ2J (partialTrace dd out))]
   | s => .error s!"unknown ptomo kind {s}"
 
 end LW.Driver
